@@ -92,6 +92,10 @@ func gen(r *harn.Rng, tier string) interface{} {
 		nw = r.Pick(2, 3)
 	}
 	ips := append([]string{"", "0.0.0.0", "127.0.0.1", "10.0.0.99"}, sc.HostIPs...)
+	if r.Bool(0.3) {
+		// addresses an IPv4-only host does not own, in the other family
+		ips = append(ips, "::", "::1")
+	}
 	for w := 0; w < nw; w++ {
 		var ops []bindOp
 		if sc.NearFull > 0 {
